@@ -68,7 +68,7 @@ def parse_zck(b):
 
 # ---------------------------------------------------------------- loopback range server
 class State:
-    file = b""; max_ranges = 10 ** 6; boundary = "00000000000000000001"; quoted = False; log = []; served = 0; kill_after = None; victim = None
+    file = b""; max_ranges = 10 ** 6; boundary = "00000000000000000001"; quoted = False; log = []; served = 0; kill_after = None; victim = None; vary = False; multiparts = 0
 
 
 class H(http.server.BaseHTTPRequestHandler):
@@ -93,10 +93,13 @@ class H(http.server.BaseHTTPRequestHandler):
             self.send_response(206); self.send_header("Content-Range", "bytes %d-%d/%d" % (a, b, len(f))); self.send_header("Content-Type", "application/octet-stream")
         else:
             body = b""
+            State.multiparts += 1; bnd = State.boundary
+            if State.vary and State.multiparts > 1:      # like Apache / nginx: a fresh boundary for every response
+                tag = str(State.multiparts); bnd = (bnd[:-len(tag)] + tag) if len(bnd) > len(tag) else tag
             for a, b in rg:
-                body += ("\r\n--%s\r\nContent-Type: application/octet-stream\r\nContent-Range: bytes %d-%d/%d\r\n\r\n" % (State.boundary, a, b, len(f))).encode() + f[a:b + 1]
-            body += ("\r\n--%s--\r\n" % State.boundary).encode()
-            self.send_response(206); bd = '"%s"' % State.boundary if State.quoted else State.boundary
+                body += ("\r\n--%s\r\nContent-Type: application/octet-stream\r\nContent-Range: bytes %d-%d/%d\r\n\r\n" % (bnd, a, b, len(f))).encode() + f[a:b + 1]
+            body += ("\r\n--%s--\r\n" % bnd).encode()
+            self.send_response(206); bd = '"%s"' % bnd if State.quoted else bnd
             self.send_header("Content-Type", "multipart/byteranges; boundary=" + bd)
         self.send_header("Content-Length", str(len(body))); self.end_headers(); self.out(body)
 
@@ -232,7 +235,7 @@ def check_case(case):
     tp = os.path.join(d, "t", "B.zck")
     if T0:
         open(tp, "wb").write(T0)
-    State.file = B; State.max_ranges = case["max_ranges"]; State.boundary = case["boundary"]; State.quoted = case["quoted"]; State.log = []; State.served = 0; State.kill_after = None
+    State.file = B; State.max_ranges = case["max_ranges"]; State.boundary = case["boundary"]; State.quoted = case["quoted"]; State.log = []; State.served = 0; State.kill_after = None; State.vary = case.get("vary_boundary", False); State.multiparts = 0
     hp = min(max(89, hb["total"]), len(B))
     on_disk_at_kill = None
     if case["kill_after"]:
@@ -274,7 +277,7 @@ def check_case(case):
 
 
 def describe(case):
-    return "segs=%d edits=%d have_a=%s target=%d comp=%s max_ranges=%d boundary=%r quoted=%s kill_after=%s" % (len(case["segs"]), len(case["edits"]), case["have_a"], case["target"], case["comp"], case["max_ranges"], case["boundary"], case["quoted"], case["kill_after"])
+    return "segs=%d edits=%d have_a=%s target=%d comp=%s max_ranges=%d boundary=%r%s quoted=%s kill_after=%s" % (len(case["segs"]), len(case["edits"]), case["have_a"], case["target"], case["comp"], case["max_ranges"], case["boundary"], "(varies)" if case.get("vary_boundary") else "", case["quoted"], case["kill_after"])
 
 
 def write_replay(case, sig, msg):
@@ -306,7 +309,7 @@ def cases(draw):
     return {"segs": [list(x) for x in draw(st.lists(seg, min_size=1, max_size=14))], "edits": [[a, b, list(c)] for a, b, c in draw(st.lists(st.tuples(st.integers(0, 2), st.integers(0, 20), seg), max_size=4))],
             "have_a": draw(st.booleans()), "target": draw(st.integers(0, 4)), "damage": draw(st.integers(0, 2 ** 15)), "comp": draw(st.sampled_from([None, "none", "zstd"])),
             "max_ranges": draw(st.sampled_from([1, 2, 7, 127, 10 ** 6, 10 ** 6])), "boundary": draw(st.one_of(st.just("00000000000000000001"), st.text(alphabet="0123456789abcdefXYZ", min_size=1, max_size=40), st.sampled_from(["a+b", "x(1)y", "gc0p4Jq0M2Yt08jU534c0p", "=_?:'a"]))),
-            "quoted": draw(st.booleans()), "kill_after": draw(st.integers(1, 60000)) if A.property == "C11" else draw(st.one_of(st.none(), st.none(), st.none(), st.integers(1, 30000)))}
+            "quoted": draw(st.booleans()), "vary_boundary": draw(st.booleans()), "kill_after": draw(st.integers(1, 60000)) if A.property == "C11" else draw(st.one_of(st.none(), st.none(), st.none(), st.integers(1, 30000)))}
 
 
 N = A.cases or (25 if A.tier == "quick" else 400)
